@@ -73,14 +73,14 @@ def run(ctx):
     ctx.floor("SI prefixes", len(variants), 25)
     # tables
     def tbl(fn):
-        b = U.body.get(SIP + "::" + fn)
+        b = U.get_body(SIP + "::" + fn)
         if b is None:
             raise ModelError("anchor", "SIPrefix::%s has no body" % fn, where)
-        return U.table(b, variants, "table", "SIPrefix::" + fn), b
+        return U.table(b, variants, "table", "SIPrefix::" + fn, enum_path=SIP), b
     names, nb = tbl("name")
     abbrs, ab = tbl("abbr")
     # exp == discriminant cast
-    eb = U.body.get(SIP + "::exp")
+    eb = U.get_body(SIP + "::exp")
     if eb is None:
         raise ModelError("anchor", "SIPrefix::exp has no body", where)
     ee = peel(eb["value"])
@@ -127,7 +127,7 @@ def run(ctx):
         variants_const = order_for_iter = None
         tables = {}
         ref_unit_hru = ref_unit_lsu = None
-    b = U.body.get(SIP + "::from_abbr")
+    b = U.get_body(SIP + "::from_abbr")
     if b is None:
         raise ModelError("anchor", "SIPrefix::from_abbr has no body", where)
     ev = T.Evaluator(U, keep_tags=False)
@@ -183,7 +183,7 @@ def run(ctx):
                    "from_abbr(%r) = %s although no prefix has that abbreviation" % (key, got), b["span"])
     # from_exp: the gated summary is evaluated for each of the 256 values of i8
     # (integer semantics with overflow checks, see intdom.py)
-    b = U.body.get(SIP + "::from_exp")
+    b = U.get_body(SIP + "::from_exp")
     if b is None:
         raise ModelError("anchor", "SIPrefix::from_exp has no body", where)
     ev_exp = T.Evaluator(U, keep_tags=False)
@@ -236,7 +236,7 @@ def run(ctx):
     ctx.extra["from_exp_values_decided"] = 256
     ctx.extra["from_exp_none_values"] = n_none
     # 5. iteration order
-    vb = U.body.get(SIP + "::VARIANTS")
+    vb = U.get_body(SIP + "::VARIANTS")
     if vb is None:
         raise ModelError("anchor", "SIPrefix::VARIANTS missing", where)
     v = U.folder.fold(vb["value"])
@@ -245,7 +245,7 @@ def run(ctx):
            "VARIANTS is not the list of all variants in declaration order: %s" % (order,), vb["span"])
     inc = all(discr[variants[i]] < discr[variants[i + 1]] for i in range(len(variants) - 1))
     ctx.ob("iter-increasing", "VARIANTS", inc, "discriminants are not strictly increasing in declaration order", where)
-    ib = U.body.get(SIP + "::iter")
+    ib = U.get_body(SIP + "::iter")
     if ib is None:
         raise ModelError("anchor", "SIPrefix::iter missing", where)
     ie = peel(ib["value"])
